@@ -44,7 +44,7 @@ WantStr(w) == IF w[1] THEN Hex(Concat([i \in DOMAIN w[2] |-> w[2][i].material]))
 DK(e) == Derive(KS(e), HexToBytes(e.salt))[2]
 PK(e) == DerivedPrimary(DK(e))
 
-Judge(e) ==
+JudgeValue(e) ==
   CASE e.ev = "construct" -> <<>>                       \* coverage only (DESIGN section 4)
     [] e.ev = "derive" ->
          LET want == Derive(KS(e), HexToBytes(e.salt))
@@ -108,6 +108,15 @@ Judge(e) ==
          ELSE IF e.pt2 # e.pt THEN <<"an ordinary key with the derived bytes does not decrypt the derived key's ciphertext", e.pt>>
          ELSE <<>>
     [] OTHER -> <<"unknown event", e.ev>>
+
+\* Every byte string handed to the real code lives in a driver buffer with sentinel-filled spare capacity and guard
+\* zones; inIntact records that input bytes, spare capacity and guards were unchanged after the call(s) of the event.
+\* A call that alters its input has not computed the standard value "for the caller's input": judged together with
+\* the value.  (Known-answer events of the reference gate carry no inIntact.)
+Judge(e) ==
+  IF "inIntact" \in DOMAIN e /\ ~e.inIntact
+  THEN <<"the call altered a buffer handed in by the caller (input bytes, spare capacity or guard zone)", "unchanged">>
+  ELSE JudgeValue(e)
 
 Start == IF "VERIF_START" \in DOMAIN IOEnv THEN atoi(IOEnv.VERIF_START) ELSE 1
 
